@@ -29,19 +29,19 @@ def one(seed):
         if r.returncode:
             return seed, None, None, None
         own, others, errs = [], [], []
-        for p in ALL:
-            env = dict(os.environ, NANITE_REPO=t)
-            o = subprocess.run(["/venv/bin/python", "-m", "nanite_sa", p,
-                                "--no-evidence"], cwd="/verif", env=env,
-                               capture_output=True, text=True)
-            if o.returncode == 1:
-                rules = sorted(set(re.findall(r"^(C\d\d-R\w+) ", o.stdout,
-                                              re.M)))
+        env = dict(os.environ, NANITE_REPO=t)
+        o = subprocess.run(["/venv/bin/python", "/verif/tools/runall.py"],
+                           cwd="/verif", env=env, capture_output=True,
+                           text=True)
+        for line in o.stdout.splitlines():
+            d = json.loads(line)
+            p = d["pid"]
+            if d["rc"] == 1:
                 if p == pid:
-                    own = rules
+                    own = d["rules"]
                 else:
                     others.append(p)
-            elif o.returncode == 2:
+            elif d["rc"] == 2:
                 errs.append(p)
         return seed, own, others, errs
     finally:
@@ -69,7 +69,7 @@ def touched(seed):
 def main():
     seeds = sorted(d for d in os.listdir(ROOT)
                    if os.path.isdir(f"{ROOT}/{d}"))
-    with cf.ThreadPoolExecutor(8) as ex:
+    with cf.ThreadPoolExecutor(14) as ex:
         rows = list(ex.map(one, seeds))
     out = ["| seeded change | edited site | reported by (own property) | "
            "also reported by | cannot decide |", "|---|---|---|---|---|"]
